@@ -413,7 +413,7 @@ CAMLprim value vp_comp_from_str(value s)
 
 /* ---- merger, test merge / dupsort callbacks, user-defined sources ------------------ */
 struct vp_merge_clos { int kind; long calls; long fail_at; };
-/* kind 1: merged = v0 ++ "|" ++ v1 (order-revealing).  fail_at = n: the n-th call (1-based)
+/* kind 1: merged = v0 ++ "|" ++ v1 (order-revealing); kind 2: v0 ++ v1.  fail_at = n: the n-th call (1-based)
  * fails by leaving *merged_val untouched. */
 static void vp_merge_func(void *clos, const uint8_t *key, size_t len_key,
 			  const uint8_t *val0, size_t len_val0, const uint8_t *val1, size_t len_val1,
@@ -423,6 +423,12 @@ static void vp_merge_func(void *clos, const uint8_t *key, size_t len_key,
 	(void) key; (void) len_key;
 	c->calls++;
 	if (c->fail_at > 0 && c->calls == c->fail_at) return;
+	if (c->kind == 2) {	/* kind 2: plain concatenation - the merged value of two empty values is empty (a non-NULL buffer of length 0) */
+		*len_merged_val = len_val0 + len_val1;
+		*merged_val = malloc(*len_merged_val + 1);
+		memcpy(*merged_val, val0, len_val0); memcpy(*merged_val + len_val0, val1, len_val1);
+		return;
+	}
 	*len_merged_val = len_val0 + 1 + len_val1;
 	*merged_val = malloc(*len_merged_val + 1);
 	memcpy(*merged_val, val0, len_val0);
